@@ -332,6 +332,8 @@ class StratRec:
                            'orders': list(t['orders'])})
         ex = self.item['config']['exchange']
         w1 = (fin.get('accts') or {}).get(ex, {}).get('wallet')
+        if w1 is None and (fin.get('accts') or {}).get(ex, {}).get('type') == 'spot':
+            w1 = fin['accts'][ex]['assets'].get('USDT')
         res = out.get('result') or {}
         m = res.get('metrics') if isinstance(res, dict) else None
         has_m = bool(m) and 'net_profit' in (m or {})
@@ -378,6 +380,8 @@ def build_candles(item):
 
 def config_of(item):
     fee = item['fee']
+    if item.get('spot'):
+        return S.spot_config(balance=item.get('balance', 100000), fee=fee[0] / fee[1])
     return S.futures_config(balance=item.get('balance', 100000), fee=fee[0] / fee[1], lev=item.get('lev', 2),
                             mode=item.get('mode', 'cross'))
 
@@ -390,7 +394,8 @@ def run_item(item):
     cls = make_strategy(item['policy'], rec.log)
     rec.install()
     try:
-        out = S.run_backtest(None, item['config'], build_candles(item), strategy_cls=cls, fast=item.get('fast', False))
+        routes = [{'symbol': SYMS[si], 'timeframe': item.get('tf', '1m')} for si in range(item['nsym'])]
+        out = S.run_backtest(None, item['config'], build_candles(item), strategy_cls=cls, fast=item.get('fast', False), routes=routes)
     finally:
         rec.uninstall()
     ev = rec.finish(out)
@@ -445,6 +450,19 @@ def gen_items(seed, count, kinds, n_minutes=240):
             it.update(nsym=2)
         elif kind == 'half':
             pol.update(base=200, tick=0.5, qtys=(1, 2, 4), max_entry_rows=2, max_exit_rows=3, exits_in='mixed', p_edit=0.2)
+        elif kind == 'tf5':        # 5m trading route: several fills between two strategy steps
+            pol.update(base=100, tick=1.0, qtys=(1, 2), max_entry_rows=3, max_exit_rows=3, exits_in=rng.choice(['go', 'on_open', 'mixed']),
+                       p_edit=0.3, p_edit_reduced=0.5, p_edit_increased=0.5, entry_every=rng.choice([3, 4, 5]), long_phase=1, short_phase=2,
+                       sl_dist=(3, 9), tp_dist=(2, 8))
+            it.update(tf='5m', n=(n_minutes // 5) * 5 * 2)
+        elif kind == 'spot':       # spot account: exits may only be declared once the position is open; no shorts, no fee
+            pol.update(base=100, tick=1.0, qtys=(1, 2), max_entry_rows=2, max_exit_rows=2, exits_in='on_open', allow_short=False,
+                       p_edit=0.25, p_edit_reduced=0.5, p_edit_increased=0.5, p_edit_entry=0.0)
+            it.update(spot=True, fee=[0, 1])
+        elif kind == 'fast':       # the fast simulator drives the same strategy code
+            pol.update(base=100, tick=1.0, qtys=(1, 2), max_entry_rows=2, max_exit_rows=2, exits_in=rng.choice(['go', 'on_open']),
+                       p_edit=0.2)
+            it.update(fast=True)
         it['policy'] = pol
         items.append(it)
     return items
